@@ -1824,7 +1824,7 @@ def run(ctx: Ctx, replay=None) -> int:
     ok = ctx.prove(targets, mods)
     if ok:
         names = [f"QV.Props.C16.{n}" for _, n, _ in ctx.count_obligations(["QuriVerif.Props.C16"])]
-        names += [f"QV.Props.C16Lift.{n}" for _, n, _ in ctx.count_obligations(["QuriVerif.Props.C16Lift"]) if n not in ("chain_track", "chainS_track")]
+        names += [f"QV.Props.C16Lift.{n}" for _, n, _ in ctx.count_obligations(["QuriVerif.Props.C16Lift"]) if n not in ("chain_track", "chainS_track", "sup_ex")]
         if not ctx.quick():
             names += [f"QV.Props.C16Deep.{n}" for _, n, _ in ctx.count_obligations(["QuriVerif.Props.C16Deep"])]
         ctx.audit(names, mods)
